@@ -312,3 +312,48 @@ def tasks(tier):
     return _t_kt(tier) + [('killed_terminal', t_killed_terminal)]
 from specs.C07 import replay_configure as _rc13
 REPLAYERS['configure'] = _rc13
+
+
+# ---------------------------------------------------------------- C13.d (initialisers): a new bank's configuration is validated before the instruction can succeed
+ADD_BANK = {
+    'add_bank': (r'marginfi_group::add_pool::lending_pool_add_bank$', False), 'add_bank_with_seed': (r'add_pool_with_seed::lending_pool_add_bank_with_seed$', False),
+    'add_bank_permissionless': (r'add_pool_permissionless::lending_pool_add_bank_permissionless$', True), 'add_bank_kamino': (r'kamino::add_pool::lending_pool_add_bank_kamino$', True),
+    'add_bank_drift': (r'drift::add_pool::lending_pool_add_bank_drift$', True), 'add_bank_solend': (r'solend::add_pool::lending_pool_add_bank_solend$', True),
+}
+
+
+def mk_add_bank(name):
+    def t(world):
+        from specs.handlers import run_handler, short
+        from specs.flows import cellname
+        fnre, oracle = ADD_BANK[name]
+        ob = Ob('C13.d.' + name, f'{name}: Ok => the bank written by Bank::new was passed through BankConfig::validate' + (' and validate_oracle_setup' if oracle else '') +
+                ' AFTER it was written, on that same bank object, and the validator\'s error is propagated (lending_pool_clone_bank is staging-only: it panics under the mainnet program id)',
+                [], 'handler mode; Bank::new / validators opaque (C13.a decides validate); every accepting path', role='unvalidated-write')
+        try:
+            eng, f, args, res = run_handler(world, fnre, extra_opaque=[r'Bank[^:]*::new$', r'<impl[^>]*>::new$', r'log_pool_info', r'add_bank$', r'transfer_flat_fee', r'make_points'])
+        except Exception as ex:
+            ob.fail('encoder failed: ' + repr(ex)[:200]); return [ob]
+        ob.functions.append(f.name); ob.paths = len(res)
+        for r, okc in ok_paths(res):
+            if ob.witness(eng, r, [okc]) is False: continue
+            E = [e for e in flat_events(r['events']) if e[0] == 'call']
+            li = [i for i, e in enumerate(E) if re.search(r'AccountLoader.*load_init$', e[1])]
+            nw = [i for i, e in enumerate(E) if re.search(r'Bank[^:]*::new$|<impl[^>]*>::new$', e[1]) and 'Bank' in short(e[1])]
+            if len(li) != 1 or len(nw) != 1: ob.structural(f'{len(li)} load_init / {len(nw)} Bank::new calls on an accepting path', 'init-shape', {'trace': [short(e[1]) for e in E][:40]}); continue
+            bank = f'{E[li[0]][2][0]}.acct'
+            def need(pat, what):
+                c = [(i, e) for i, e in enumerate(E) if re.search(pat, e[1]) and i > nw[0] and cellname(e[2][0]) == bank]
+                if not c:
+                    ob.structural(f'no {what} on the new bank after it is written', 'unvalidated-write:' + what, {'trace': [short(e[1]) for e in E][:40]}); return
+                ob.prove(eng, r, [okc], zint(c[-1][1][3].disc) == 0, f'{what}: rejection is propagated', role='unvalidated-write:' + what)
+            need(r'BankConfig[^:]*>::validate$|bank_config::<impl[^>]*>::validate$', 'BankConfig::validate')
+            if oracle: need(r'::validate_oracle_setup$', 'validate_oracle_setup')
+        ob.need_witness()
+        return [ob]
+    return t
+
+
+_t13add = tasks
+def tasks(tier):
+    return _t13add(tier) + [('init:' + n, mk_add_bank(n)) for n in ADD_BANK]
